@@ -23,7 +23,7 @@ for sd in seeds:
         if ap.returncode!=0:
             out.append({"seed":meta["seed_id"],"result":"skipped: patch does not apply to the current tree","expected_detected":want}); continue
         tv=tmp+"/verif"; os.makedirs(tv+"/evidence")
-        for n in ("triage","known_findings.txt","seeded","baseline_funcs.txt"):
+        for n in ("triage","known_findings.txt","seeded","baseline_funcs.txt","baseline_cfuncs.txt"):
             if os.path.exists(f"{verif}/{n}"): os.symlink(f"{verif}/{n}",f"{tv}/{n}")
         r=subprocess.run([binp,"-prop",prop,"-tier","quick","-repo",tmp+"/repo","-verif",tv],capture_output=True,text=True)
         keys=[l.strip()[4:].strip() for l in r.stdout.splitlines() if l.startswith("  key ")]
